@@ -309,7 +309,7 @@ end entries
 /-- `mul_assign` with the candidate's bits copied (`d3 = false`): enclosure in all nine cases -/
 theorem mulAssign_encloses {p : Policy} {R : Rounding} (hR : R.Sound) {x y : Iv} {a b : Rat}
     (ha : x.mem p a) (hb : y.mem p b) : (mulAssign false p R x y).mem p (a * b) := by
-  unfold mulAssign
+  unfold mulAssign mulTable mulStraddle
   simp only [checkEmptyArg_of_mem ha, checkEmptyArg_of_mem hb, infinitySign_of_mem ha, infinitySign_of_mem hb,
     sgnB_lower_of_mem ha, sgnB_upper_of_mem ha, sgnB_lower_of_mem hb, sgnB_upper_of_mem hb,
     xus_of_mem ha, xus_of_mem hb, Bool.or_self, Bool.false_eq_true, ↓reduceIte, bne_self_eq_false,
@@ -355,5 +355,61 @@ theorem mulAssign_encloses {p : Policy} {R : Rounding} (hR : R.Sound) {x y : Iv}
            (le_total 0 a).elim U1 (fun h0 => lt_upper_upper_true hl' (U2 h0))⟩
   · exact ⟨(le_total 0 a).elim (fun h0 => lt_lower_lower_false (by simpa [gt] using hg) (L1 h0)) L2,
            (le_total 0 a).elim (fun h0 => lt_upper_upper_false (by simpa using hl') (U1 h0)) U2⟩
+
+/-! ### the code as written (`d3 = true`) -/
+
+theorem replaceCandidate_eq {first second : Bound} (h : first.open = second.open) :
+    replaceCandidate true first second = replaceCandidate false first second := by
+  obtain ⟨v1, o1⟩ := first; obtain ⟨v2, o2⟩ := second
+  simp only at h; subst h; rfl
+
+theorem mulStraddle_eq {p : Policy} {R : Rounding} {x y : Iv} (h : straddleFlagsDiffer p R x y = false) :
+    mulStraddle true p R x y = mulStraddle false p R x y := by
+  unfold straddleFlagsDiffer at h
+  simp only [Bool.or_eq_false_iff, Bool.and_eq_false_iff, bne_eq_false_iff_eq] at h
+  unfold mulStraddle
+  simp only []
+  congr 1
+  · split_ifs with hg
+    · rcases h.1 with h' | h'
+      · rw [hg] at h'; simp at h'
+      · exact replaceCandidate_eq h'
+    · rfl
+  · split_ifs with hg
+    · rcases h.2 with h' | h'
+      · rw [hg] at h'; simp at h'
+      · exact replaceCandidate_eq h'
+    · rfl
+
+theorem mulTable_congr {p : Policy} {R : Rounding} {x y : Iv} {xls xus yls yus : Int} {s s' : Iv}
+    (h : ¬ xls ≥ 0 → ¬ xus ≤ 0 → ¬ yls ≥ 0 → ¬ yus ≤ 0 → s = s') :
+    mulTable p R x y xls xus yls yus s = mulTable p R x y xls xus yls yus s' := by
+  unfold mulTable
+  split_ifs with h1 h2 h3 h4 h5 h6 h7 h8 <;> first | rfl | exact h h1 h4 h7 h8
+
+/-- where defect 3 does not act, the code as written computes what the repaired code computes -/
+theorem mulAssign_d3_eq {p : Policy} {R : Rounding} {x y : Iv} (h : d3Differs p R x y = false) :
+    mulAssign true p R x y = mulAssign false p R x y := by
+  unfold mulAssign
+  unfold d3Differs at h
+  simp only [] at h ⊢
+  by_cases h1 : (checkEmptyArg p x || checkEmptyArg p y) = true
+  · simp only [h1, ↓reduceIte]
+  simp only [h1, Bool.false_eq_true, ↓reduceIte] at h ⊢
+  by_cases h2 : (infinitySign p x != 0) = true
+  · simp only [h2, ↓reduceIte]
+  simp only [h2, Bool.false_eq_true, ↓reduceIte] at h ⊢
+  by_cases h3 : (infinitySign p y != 0) = true
+  · simp only [h3, ↓reduceIte]
+  simp only [h3, Bool.false_eq_true, ↓reduceIte] at h ⊢
+  apply mulTable_congr
+  intro c1 c2 c3 c4
+  apply mulStraddle_eq
+  simpa only [c1, c2, c3, c4, ↓reduceIte] using h
+
+theorem mulAssign_encloses_asWritten {p : Policy} {R : Rounding} (hR : R.Sound) {x y : Iv} {a b : Rat}
+    (hd : d3Differs p R x y = false) (ha : x.mem p a) (hb : y.mem p b) :
+    (mulAssign true p R x y).mem p (a * b) := by
+  rw [mulAssign_d3_eq hd]; exact mulAssign_encloses hR ha hb
 
 end PPLV.Interval
